@@ -7,8 +7,9 @@ from props.hmcommon import *
 _base_harnesses = harnesses
 def harnesses(tier):
     # _sk: keys of a type whose move constructor empties its source (std::string inside)
-    return _base_harnesses(tier) + [('hm', ('XV_RECL=GC',), False, '_gc'), ('hm', ('XV_RECL=HPs<6>', 'XV_STRKEY'), False, '_hp_sk')]
+    return _base_harnesses(tier) + [('hm', ('XV_RECL=GC',), False, '_gc'), ('hmm', ('XV_RECL=GC',), False, '_gc'), ('hm', ('XV_RECL=HPs<6>', 'XV_STRKEY'), False, '_hp_sk')]
 HARNESSES = harnesses('quick')
+PROPERTY_FILES = ['Properties_C08', 'Properties_C08_hmm']
 THEOREM_NOTES = {
     'scope': 'the theorems are about a step-level model of harris_michael_list_based_set (emplace / emplace_or_get, erase(key), contains / find incl. helping and restarts) over a reclaimer whose guards are single loads and that never reuses nodes (what C01 provides): list structure, abstraction (abstract set = keys of unmarked reachable nodes), linearization points, every returned result equals the sequential answer at a state inside the call, exactly one of racing erases succeeds, conservation at quiescence - for any number of threads, programs and schedules. harris_michael_hash_map with one bucket produces the same traces; multi-bucket maps, get_or_emplace(_lazy), operator[], erase(iterator) and the real reclaimers (ABA with reuse) are covered by the search only',
 }
@@ -36,6 +37,11 @@ def run(ctx):
         cases.append(({'c': 'set'}, [[('%s %d' % (rng.choice(['ins', 'ins', 'del', 'del', 'has']), rng.randrange(nk))) for _ in range(3 + k % 2)] for _ in range(2 + k % 2)]))
     st = do_correspondence(ctx, 'hml', Hgc, cases, 10 if thorough else 6, 'harris_michael_list')
     tie = tie_broken_sig(st, 'hml')
+    # ---- tie: the hash map model (Model/HmmDefs.v; buckets 1/2/4, memoize_hash on/off, hash id/mod2/rev/const)
+    Hmm = Hs.pop('hmm_gc')
+    mcases = [c for c in HMM_FIXED[:2]] + [hmm_model_program(rng, iterators=False) for _ in range(8 if thorough else 4)]
+    stm = do_correspondence(ctx, 'hmm', Hmm, mcases, 10 if thorough else 6, 'harris_michael_hash_map')
+    tie = tie or tie_broken_sig(stm, 'hmm')
     for name, H in sorted(Hs.items()):
         jobs = []
         for cfg in (CONFIGS if thorough else rng.sample(CONFIGS[:-2], 3) + [rng.choice(CONFIGS[-2:])]):
